@@ -36,6 +36,16 @@ META = {
 RANGES = 'formulas/ranges.py'
 
 
+def _calls_fn(ctx, g, call, target):
+    """Does this call resolve (through the call graph's name resolution:
+    aliases, Class.helper, self.helper) to the given package function?"""
+    try:
+        eds = ctx.cg._resolve_callee(g, call.func, call, 'call')
+    except Exception:
+        return False
+    return any((not e.is_ext) and e.dst is target for e in eds)
+
+
 def rule_funnel(ctx):
     rr = RuleResult('C05', 'C05.funnel', 'MPT/SIB',
                     'evaluation paths of the element wrapper', floor=2)
@@ -161,11 +171,20 @@ def rule_funnel(ctx):
             rr.ok('path [%s]: safe_eval lifted by numpy broadcasting' % (
                 cond or 'default'), where)
         else:
-            helpers = sorted({c.func.id for s in stmts for c in ast.walk(s)
-                              if isinstance(c, ast.Call) and isinstance(
-                              c.func, ast.Name) and c.func.id.startswith('args2')})
-            rr.fail('%s::wrap_ufunc::hand-rolled evaluation path [%s]' % (
-                FUNCS_REL, cond),
+            helpers = set()
+            for s in stmts:
+                for c in ast.walk(s):
+                    if isinstance(c, ast.Call) and isinstance(
+                            c.func, (ast.Name, ast.Attribute)):
+                        r_ = ctx.cg.resolve_name_expr(w, c.func)
+                        if r_ and r_[0] == 'func' and r_[1].module is w.module \
+                                and r_[1].parent is None:
+                            helpers.add(r_[1].name)
+            helpers = sorted(helpers)
+            # identified by the pairing helper it uses, not by how the
+            # condition leading to it is spelled
+            rr.fail('%s::wrap_ufunc::hand-rolled evaluation path through %s' % (
+                FUNCS_REL, '+'.join(helpers) or 'inline pairing'),
                 'wrap_ufunc.wrapper has an evaluation path (when `%s`) that '
                 'does not delegate broadcasting to numpy but pairs elements by '
                 'hand (%s): a row vector or an error value among the arguments '
@@ -231,6 +250,19 @@ def rule_funnel(ctx):
                     {x.id for x in ast.walk(s_.value)
                      if isinstance(x, ast.Name)} & (carriers | {resvar})
                     for s_ in stores):
+                continue
+            # an empty list that is then filled through safe_eval
+            # (`res = []; res.append(safe_eval(...))`)
+            empty_list = (isinstance(a, ast.List) and not a.elts) or (
+                isinstance(a, ast.Call) and isinstance(a.func, ast.Name) and
+                a.func.id == 'list' and not a.args)
+            fills_ = [c for c in own_nodes(w) if isinstance(c, ast.Call) and
+                      isinstance(c.func, ast.Attribute) and c.func.attr in (
+                          'append', 'extend') and isinstance(
+                          c.func.value, ast.Name) and c.func.value.id == resvar]
+            if empty_list and fills_ and all(
+                    {x.id for a_ in c.args for x in ast.walk(a_)
+                     if isinstance(x, ast.Name)} & carriers for c in fills_):
                 continue
             bad_def = bad_def or (n, a)
     if bad_def:
@@ -310,7 +342,8 @@ def rule_fill(ctx):
     p = ctx.project
     ir = p.func(FUNCS_REL, '_init_reshape')
     rr.instances += 1
-    if has("___r[:, :] = getattr(value, '_default', Error.errors['#N/A'])",
+    vprm = ir.params[1] if len(ir.params) > 1 else 'value'
+    if has("___r[:, :] = getattr(%s, '_default', Error.errors['#N/A'])" % vprm,
            ir, stmt=True):
         rr.ok("_init_reshape fills with the value's own _default (fallback "
               '#N/A)', FUNCS_REL)
@@ -321,7 +354,7 @@ def rule_fill(ctx):
                 'reach get another value', file=FUNCS_REL,
                 function='_init_reshape', line=ir.lineno)
     rr.instances += 1
-    if has('get_shape(*value.shape)', ir):
+    if has('get_shape(*%s.shape)' % vprm, ir):
         rr.ok('_init_reshape derives the copy window from get_shape(*value.'
               'shape)', FUNCS_REL)
     else:
@@ -388,10 +421,20 @@ def rule_fill(ctx):
            (p.func(RANGES, '_reshape_array_as_excel'), 'value')]
     for f, val in sib:
         rr.instances += 1
-        inits = find('__res, __r, __c = _init_reshape(___a, ___b)', f, stmt=True)
+        # `res, r, c = <call resolved to _init_reshape>(...)`, however the
+        # helper is addressed (bare name, Class.helper, alias)
+        inits = []
+        for n in own_nodes(f):
+            if isinstance(n, ast.Assign) and len(n.targets) == 1 and isinstance(
+                    n.targets[0], ast.Tuple) and len(
+                    n.targets[0].elts) == 3 and all(isinstance(
+                    e, ast.Name) for e in n.targets[0].elts) and isinstance(
+                    n.value, ast.Call) and _calls_fn(ctx, f, n.value, ir):
+                inits.append(dict(zip(('res', 'r', 'c'), (
+                    e.id for e in n.targets[0].elts))))
         init = bool(inits)
-        copy = init and has('__res[:__r, :__c] = %s' % val, f, inits[0][1],
-                            stmt=True)
+        copy = init and has('%s[:%s, :%s] = %s' % (
+            inits[0]['res'], inits[0]['r'], inits[0]['c'], val), f, stmt=True)
         if init and copy:
             rr.ok('%s starts from _init_reshape and copies the value into '
                   '[:r, :c]' % f.qualname, f.module.rel)
@@ -403,18 +446,52 @@ def rule_fill(ctx):
                         'does not copy the value into res[:r, :c]'),
                     file=f.module.rel, function=f.qualname, line=f.lineno)
     # the cell output filter fits through set_value -> _reshape_array_as_excel
+    # (calls resolved through the call graph, private helpers followed)
+    from ..util import nodes_with_helpers, bound_arg, assigned_value
     sv = p.func(RANGES, 'Ranges.set_value')
+    ra = p.func(RANGES, '_reshape_array_as_excel')
+    shape_f = p.func(RANGES, '_shape')
     rr.instances += 1
-    shp = find('__shape = _shape(**rng)', sv, stmt=True)
-    if (shp and has('_reshape_array_as_excel(value, __shape)', sv, shp[0][1])) \
-            or has('_reshape_array_as_excel(value, _shape(**rng))', sv):
+
+    def _calls(g, call, target):
+        try:
+            eds = ctx.cg._resolve_callee(g, call.func, call, 'call')
+        except Exception:
+            return False
+        return any((not e.is_ext) and e.dst is target for e in eds)
+
+    def _is_shape(g, e, depth=0):
+        if isinstance(e, ast.Call) and _calls(g, e, shape_f):
+            return True
+        if isinstance(e, ast.Name) and depth < 2:
+            vals = assigned_value(g, e.id)
+            return bool(vals) and all(_is_shape(g, v, depth + 1) for v in vals)
+        return False
+
+    fits, unfit = [], []
+    for g, n in nodes_with_helpers(ctx, sv):
+        if isinstance(n, ast.Call) and _calls(g, n, ra):
+            a2 = bound_arg(ctx, g, n, 1, 'base_shape')
+            (fits if a2 is not None and _is_shape(g, a2) else unfit).append(
+                (g, n))
+    if fits and not unfit:
         rr.ok('Ranges.set_value fits the value to the shape of its range',
               RANGES)
-    else:
+    elif unfit:
+        g, n = unfit[0]
+        rr.fail(key_of(sv, 'value not fitted to the range'),
+                'Ranges.set_value reshapes the value with `%s`, not to '
+                '_shape(**rng)' % norm_src(n)[:80], file=RANGES,
+                function=g.qualname, line=n.lineno)
+    elif ra.fq not in ctx.cg.reachable([sv]):
         rr.fail(key_of(sv, 'value not fitted to the range'),
                 'Ranges.set_value no longer reshapes the value to '
-                '_shape(**rng) with _reshape_array_as_excel', file=RANGES,
+                '_shape(**rng) with _reshape_array_as_excel (the reshaper is '
+                'not reachable from it)', file=RANGES,
                 function=sv.qualname, line=sv.lineno)
+    else:
+        raise AnalysisError('C05.fill: Ranges.set_value reaches the reshaper '
+                            'only through calls the rule does not follow')
     fo = p.func('formulas/cell.py', 'format_output')
     rr.instances += 1
     if any(isinstance(n, ast.Call) and call_name(n) == 'set_value'
@@ -430,7 +507,8 @@ def rule_fill(ctx):
 
 
 def run(ctx):
+    S = ctx.soft
     from .common import rule_memo
     regs = [r for r in ctx.registry.all() if r.has('wrap_ufunc')]
-    return [rule_funnel(ctx), rule_fill(ctx),
-            rule_memo(ctx, 'C05', 'C05.memo', regs)]
+    return [S(rule_funnel, ctx), S(rule_fill, ctx),
+            S(rule_memo, ctx, 'C05', 'C05.memo', regs)]
